@@ -18,6 +18,10 @@ Model: `Stream.compactWith` / `compactInterleaved` and `Stream.recover` (M4) ove
 * `tombstone_gc_safe_partial` — with tombstone GC: the recovered states agree key by key except
   that a key whose merged value is a tombstone below the cutoff may be absent, provided
   (`GcSafe`, decidable) no other listed segment holds that key.
+* `selection_oldest_first_prefix`, `gc_unsafe_only_through_noncandidate_or_newer`: a pass takes
+  the oldest-first prefix of the candidates, so `GcSafe` can only fail through a segment that is
+  not a candidate or that is newer than everything compacted; `smallest_first_selection_
+  counterexample` shows what another selection order does.
 * kernel-checked counterexamples for every excluded case: `equal_times_counterexample`,
   `expiry_some_then_none_counterexample`, `hash_two_replicas_counterexample`,
   `production_clock_counterexample`, `dropped_tombstone_expiry_counterexample`,
@@ -103,6 +107,43 @@ theorem compaction_preserves_recovery_partial (cfg : CompactCfg) (sz : Nat) (w :
   rw [recState_of_inv c (compact_spec pinnedFlags allOk cfg sz w hinv).1 hp.2 rid,
     recState_of_inv c hinv hcar rid, hp.1]
 
+
+/-! ## the selection rule -/
+
+/-- **selection_oldest_first_prefix**: a pass of the modelled compactor takes the oldest-first
+    prefix (by id) of the candidates (`size < target`), of length ≤ `max_segments_per_compaction`:
+    every listed segment it leaves out is not a candidate or at least as new as all it took -/
+theorem selection_oldest_first_prefix (cfg : CompactCfg) (m : Manifest) (s : SegInfo)
+    (hs : s ∈ m.segments) (hns : s ∉ selectSegments cfg m) :
+    cfg.target ≤ s.size ∨ ∀ t ∈ selectSegments cfg m, t.id ≤ s.id :=
+  unselected_is_noncandidate_or_newer cfg m hs hns
+
+/-- **`GcSafe` can only fail through a non-candidate or a newer, cut-off segment**: with
+    oldest-first prefix selection, a value of a key whose tombstone the pass drops can survive
+    outside the pass only in a segment that is not a candidate (size ≥ target) or that is strictly
+    newer than every compacted segment (cut off by `max_segments_per_compaction`) — never in an
+    older candidate that the pass skipped -/
+theorem gc_unsafe_only_through_noncandidate_or_newer (st : Store) (cfg : CompactCfg) (q : Delta)
+    (hq : q ∈ segDeltas st (removeIds (manifestOf st 0) ((selectSegments cfg (manifestOf st 0)).map (·.id)))) :
+    ∃ s ∈ (manifestOf st 0).segments,
+      (cfg.target ≤ s.size ∨ ∀ t ∈ selectSegments cfg (manifestOf st 0), t.id < s.id) ∧
+      ∃ ds, NMap.get st (segName s.id) = some (.segment ds) ∧ q ∈ ds :=
+  outside_pass_is_noncandidate_or_newer hq
+
+/-- the seeded variant: candidates sorted by `(size_bytes, id)` — smallest first -/
+def selectSmallestFirst (cfg : CompactCfg) (m : Manifest) : List SegInfo :=
+  (sortBy (·.size) (sortBy (·.id) (m.segments.filter (fun s => s.size < cfg.target)))).take cfg.maxPer
+
+/-- a compaction pass with smallest-first selection (everything else as `compactWith`) -/
+def compactSmallestFirst (fl : CompactFlags) (F : Oracle) (cfg : CompactCfg) (sz : Nat) (w : World) :
+    World × CompactOut :=
+  match loadOrCreate F w 0 with
+  | (w1, none) => (w1, .error)
+  | (w1, some m) =>
+    let sel := selectSmallestFirst cfg m
+    if sel.length < cfg.minSegs then (w1, .nothing) else
+    let r := loadLoop fl F w1 LoadAcc.init sel
+    compactFinish F cfg sz r.1 m r.2
 
 /-! ## tombstone GC -/
 
@@ -289,6 +330,32 @@ theorem dropped_tombstone_vclock_counterexample :
       = some [(107, { lww 2 8 2 with vc := some [(2, 1)] })] ∧
     Coherent (content (after gcVclockOps).store) ∧
     ¬ GcSafe (after gcVclockOps).store { cfgAll with cutoff := 100 } := by
+  decide
+
+/-- three candidates of uneven sizes, `max_segments_per_compaction = 2`: segment 0 (large, oldest)
+    holds key 107 = v1 @10, segment 1 (small) its delete @20, segment 2 (small) another key -/
+def unevenOps : List Op :=
+  [.push (107, lww 1 10 1), .flush 900, .push (107, tomb 20 1), .flush 100, .push (120, lww 2 30 1), .flush 100]
+
+def unevenCfg : CompactCfg := { target := 1000, minSegs := 2, maxPer := 2, cutoff := 100 }
+
+/-- **smallest-first selection breaks tombstone GC where oldest-first does not**: oldest-first
+    compacts segments 0 and 1 — the expired tombstone goes together with the value it deletes;
+    smallest-first compacts segments 1 and 2, drops the tombstone and leaves the OLDER candidate
+    segment 0 behind: key 107 is served again.  (The unchanged tree never produces this: the
+    harness reports it as `C13:selection:not-oldest-first…`, an unlisted signature.) -/
+theorem smallest_first_selection_counterexample :
+    (recState (after unevenOps).store 1).map visible = some [(120, lww 2 30 1)] ∧
+    (compactWith repairedCompact allOk unevenCfg 100 (after unevenOps)).2 = .emptied [0, 1] 1 ∧
+    (recState (compactWith repairedCompact allOk unevenCfg 100 (after unevenOps)).1.store 1).map visible
+      = some [(120, lww 2 30 1)] ∧
+    GcSafe (after unevenOps).store unevenCfg ∧
+    (compactSmallestFirst repairedCompact allOk unevenCfg 100 (after unevenOps)).2 = .compacted [1, 2] 3 1 1 ∧
+    (recState (compactSmallestFirst repairedCompact allOk unevenCfg 100 (after unevenOps)).1.store 1).map visible
+      = some [(107, lww 1 10 1), (120, lww 2 30 1)] ∧
+    -- the segment left behind is a candidate that is OLDER than the segments taken
+    (selectSmallestFirst unevenCfg (manifestOf (after unevenOps).store 0)).map (·.id) = [1, 2] ∧
+    (selectSegments unevenCfg (manifestOf (after unevenOps).store 0)).map (·.id) = [0, 1] := by
   decide
 
 theorem C13_false_pinned : ¬ C13_compaction_preserves_recovery pinnedFlags := by
